@@ -31,7 +31,8 @@ def run(ctx):
     own = c20_kernels.families(ctx)
     ctx.panic_only = True
     ctx.run_families(fams + [(f'C20:{name}', (lambda fn=fn: unfiltered(ctx, fn))) for name, fn in own])
-    ctx.bounds += ['fuzzy_match::levenshtein_distance: words of <= 2 x 2 (+ 3 x 1, 1 x 3; thorough: <= 3 x 3) characters, every character an arbitrary Unicode scalar value (UTF-8 length 1..4 symbolic)',
+    ctx.bounds += ['EST printer of an extension call: 0..3 arguments, every outcome of the style lookup and of the writer',
+                   'fuzzy_match::levenshtein_distance: words of <= 2 x 2 (+ 3 x 1, 1 x 3; thorough: <= 3 x 3) characters, every character an arbitrary Unicode scalar value (UTF-8 length 1..4 symbolic)',
                    'full input space of each encoded kernel under its stated precondition (see the evidence of C01/C02/C06/C07/C08/C11/C13/C14/C15/C16/C19 - thorough: also C04 - for the preconditions)']
     ctx.assumptions += ['only the kernels listed in functions_encoded (core kernels, the AST <-> EST / PST / protobuf conversions, the batched-evaluation driver, the FFI and CLI wrapper functions with their callees as stubs); parsers, serde, error rendering and deep-nesting limits - most of C20 - are NOT covered',
                         'panics inside stubbed callees are not visible; modelled std functions panic exactly where std documents (unwrap/expect on None/Err, abs/rem_euclid overflow)']
